@@ -126,7 +126,7 @@ KINDS = ["file", "empty", "dir", "tree", "link_file", "link_dir", "link_dangling
 def entry_nodes(draw, path, kind, link_targets=None, big=False):
     """nodes creating one entry of the given kind at world path `path`"""
     modes_f = [0o644, 0o600, 0o755, 0o444, 0o000, 0o640, 0o4755, 0o2755, 0o6711, 0o1644]
-    modes_d = [0o755, 0o700, 0o555, 0o750, 0o1777, 0o2775]
+    modes_d = [0o755, 0o700, 0o555, 0o750, 0o1777, 0o2775, 0o000, 0o111]
     mt = draw(st.sampled_from([None, 1, 946684800, 1234567890, 2000000000]))
     def m(n):
         if mt is not None:
